@@ -874,7 +874,30 @@ func c20DepthSweep(c *Ctx) {
 // model cross-check (oracle family `depth`): the proven limit vs the running code
 // =====================================================================================
 
+// c20ModelIndexAudit: Props/C20.lean `scan_index_safe` rests on the byte-scanner models containing no partial
+// indexing (every byte is obtained by pattern matching with an explicit `[]` arm).  That is a property of the model
+// SOURCES; it is re-checked here on every run.  The one allowed `getD` is `Option.getD` on an error value.
+func c20ModelIndexAudit(c *Ctx) {
+	bad := regexp.MustCompile(`get!|getD|\]!|head!|getLast!|tail!|\.get \(`)
+	for _, f := range []string{"WireDecode.lean", "Resume.lean", "Validate.lean", "TokenLoop.lean"} {
+		b, err := os.ReadFile(c.VerifDir + "/lean/JsonV/Model/" + f)
+		if err != nil {
+			fail("model audit: %v", err)
+		}
+		for i, line := range strings.Split(string(b), "\n") {
+			code, _, _ := strings.Cut(line, "--")
+			code = strings.ReplaceAll(code, "(err'.getD err)", "")
+			c.Case("audit|"+f, false)
+			if bad.MatchString(code) {
+				c.Violate("corr-model-partial-index", "scan_index_safe/"+f, []byte(fmt.Sprintf("%s:%d", f, i+1)), map[string]any{"line": strings.TrimSpace(line)})
+			}
+		}
+		c.Hit("oracle/model-index-audit/" + f)
+	}
+}
+
 func c20OracleCheck(c *Ctx) {
+	c20ModelIndexAudit(c)
 	or := c.NewOracle()
 	if or == nil {
 		c.Note("no oracle: model cross-check skipped")
